@@ -34,6 +34,13 @@ type forExpander struct {
 	// line they belong to has not been seen yet
 	pendingLabels bool
 
+	// a block put out earlier in this pass holds blocks that the next pass
+	// expands
+	moreToExpand bool
+	// the block being read is put out unexpanded: its count uses a name that
+	// only the next pass can know
+	forDeferred bool
+
 	symbols map[string][]token
 
 	// values of symbols resolved for the FOR counts seen so far
@@ -286,9 +293,18 @@ func forFor(f *forExpander) forStateFn {
 	f.exprBuf = expr
 
 	val, err := expandAndEvaluate(f.exprBuf, f.symbols, f.resolved)
+	f.forDeferred = false
 	if err != nil {
-		f.tokens <- token{tokError, fmt.Sprintf("%s", err)}
-		return nil
+		if f.moreToExpand && f.hasUnknownName(f.exprBuf, make(map[string]bool)) {
+			// the count uses a name that is not defined yet, and blocks
+			// put out earlier in this pass still hold unexpanded blocks,
+			// whose bodies may define it: leave this block for the next pass
+			f.forDeferred = true
+			val = 0
+		} else {
+			f.tokens <- token{tokError, fmt.Sprintf("%s", err)}
+			return nil
+		}
 	}
 
 	if len(f.labelBuf) > 0 {
@@ -312,6 +328,22 @@ func forFor(f *forExpander) forStateFn {
 	f.labelBuf = make([]string, 0)
 
 	return forInnerLine
+}
+
+// hasUnknownName reports whether expr, or the value of a symbol it can reach,
+// holds a name that is not a symbol
+func (f *forExpander) hasUnknownName(expr []token, seen map[string]bool) bool {
+	for _, tok := range expr {
+		if tok.typ != tokText || seen[tok.val] {
+			continue
+		}
+		seen[tok.val] = true
+		value, ok := f.symbols[tok.val]
+		if !ok || f.hasUnknownName(value, seen) {
+			return true
+		}
+	}
+	return false
 }
 
 // text: forInnerConsumeLabels
@@ -440,6 +472,29 @@ func forRof(f *forExpander) forStateFn {
 		f.next()
 	}
 
+	if f.forDeferred {
+		// put the block out as it was read; the next pass expands it
+		for _, label := range f.forLineLabels {
+			f.tokens <- token{tokText, label}
+		}
+		if f.forCountLabel != "" {
+			f.tokens <- token{tokText, f.forCountLabel}
+		}
+		f.tokens <- token{tokText, "for"}
+		for _, tok := range f.exprBuf {
+			f.tokens <- tok
+		}
+		f.tokens <- token{typ: tokNewline}
+		for _, tok := range f.forContent {
+			f.tokens <- tok
+		}
+		f.tokens <- token{tokText, "rof"}
+		f.tokens <- token{typ: tokNewline}
+		f.pendingLabels = false
+		f.moreToExpand = true
+		return forLine
+	}
+
 	if f.forCount >= 1 {
 		f.recordBodyEqus()
 	}
@@ -459,6 +514,10 @@ func forRof(f *forExpander) forStateFn {
 				if tok.val == f.forCountLabel {
 					f.tokens <- token{tokNumber, fmt.Sprintf("%d", i)}
 				} else {
+					if f.forCount >= 1 && strings.ToLower(tok.val) == "for" {
+						// a nested block: the next pass expands it
+						f.moreToExpand = true
+					}
 					f.tokens <- tok
 				}
 			} else {
